@@ -78,6 +78,10 @@ def apply_step(state, t, step):
         for ns in sels:
             nsel = sel[:t] + (ns,) + sel[t + 1 :]
             for nD in Ds:
+                if ns is None and nD != c:
+                    # "restores the entering thread's previous backend": right after the exit the thread must
+                    # see c.  Going back to *following* the default is acceptable only when the default is c.
+                    continue
                 yield (nD, nsel, nst)
     else:
         raise ValueError(kind)
